@@ -270,6 +270,10 @@ def run_case(case, seed):
                 a, b = env["leaf"][(ka, pa, 0)], env["leaf"][(kb, pb, 1)]
                 ab, ba = a * b, b * a
                 evals += 1
+                # number * image (reflected operator) == image * number, type unchanged
+                ra, ar = 3 * a, a * 3
+                if (ra.k, ra.parity, ra.D) != (a.k, a.parity, a.D) or not np.array_equal(np.asarray(ra.data), np.asarray(ar.data)) or not np.array_equal(np.asarray(ra.data), 3 * np.asarray(a.data)):
+                    bad("C05/identity/scalar-multiple-reflected", f"3 * a != a * 3 (or its declared type changed) for type {(ka, pa)}")
                 perm = tuple(range(kb, kb + ka)) + tuple(range(kb))
                 if (ab.k, ab.parity) != (ba.k, ba.parity) or not np.array_equal(np.asarray(ab.data), np.asarray(ba.transpose(perm).data) if ka + kb >= 2 else np.asarray(ba.data)):
                     bad("C05/identity/product-commutativity", f"a(x)b != transpose(b(x)a) for types {(ka, pa)}, {(kb, pb)}")
